@@ -447,23 +447,25 @@ example : C07Arms.exprArms.length = 20 := by decide
   `unify_equates`): the statement for every function item whose body lies in the
   fragment `TcInfer.coreB` —
       literals of all kinds (with and without suffix: integer- and
-      float-literal variables), variables, constants, unary `-` (signed
-      integers, floats, literal variables that thereby become must-be-signed)
-      and `!`, the binary operators `+` (numbers, String + String, List + List)
-      `-` `*` `%` `== != < <= > >= && ||`, `if` with and without `else`, `while`,
-      `for`, blocks, `let` with and without annotation, expression statements,
-      calls of functions (argument count and types), `Option.Some(e)`,
-      `Option.None`, list literals (also `[]`), `?`, `return` / `accept` /
-      `reject` with and without value —
+      float-literal variables), variables, constants, field access (a path
+      `v.a.b` or `Access` on any expression), unary `-` (signed integers,
+      floats, literal variables that thereby become must-be-signed) and `!`,
+      the binary operators `+` (numbers, String + String, List + List) `-` `*`
+      `%` `== != < <= > >= && ||`, `if` with and without `else`, `while`, `for`,
+      blocks, `let` with and without annotation, expression statements,
+      assignment to local variables and their fields, calls of functions
+      (argument count and types), constructors of user enums, `Option.Some(e)`,
+      `Option.None`, typed record literals (field names and types), list
+      literals (also `[]`), `?`, `return` / `accept` / `reject` with and
+      without value —
   under the hypothesis that the store the body check leaves behind HAS A
   SOLUTION in ground types (`∃ σ, GVal σ ∧ Sat σ st.store`; `TcInfer.satB`
   decides a proposed solution).
   MISSING, precisely:
-    (a) outside the fragment: field access, `/` (its `IpAddr / u8` case builds
-        a `Prefix`, which the declarative rules do not have), method calls,
-        assignment and compound assignment, record literals, constructors of
-        user enums, `match`, f-strings (and with them `resolve_obligations`:
-        for a body of the fragment the obligations stay empty — `inferFn_store`);
+    (a) outside the fragment: `match`, method calls, compound assignment, `/`
+        (its `IpAddr / u8` case builds a `Prefix`, which the declarative rules do
+        not have), f-strings (and with them `resolve_obligations`: for a body of
+        the fragment the obligations stay empty — `inferFn_store`);
     (b) that a solution of the final store always exists (it does whenever the
         store is acyclic, which the occurs check maintains — not proved here);
     (c) constant items and whole programs (`TcInfer.checkProgM`).
